@@ -2,7 +2,7 @@ CONSTANTS
   TBle = 30000
   TDisc = 20000
   MaxSteps = 6
-  OpKinds = {"read", "notify", "services", "connect", "disconnect", "pair"}
+  OpKinds = {"read", "notify", "services", "connect", "connect_auto", "disconnect", "pair"}
   Msgs <- BleMsgs
   MaxChunk = 1
   UseSubs = FALSE
